@@ -9,7 +9,8 @@ from witness import parse_witnesses
 
 OBS = 'ObsC13'
 QUICK = dict(MaxX=2, Throughputs={0, 2, 3}, Volumes={0, 2, 3, 6}, Limits={0, 1, 2, 6}, Starts={0, 1}, Cancels={0, 1, 2})
-THOROUGH = dict(MaxX=3, Throughputs={0, 2, 3}, Volumes={0, 3, 6}, Limits={0, 1, 2, 6}, Starts={0, 1}, Cancels={0, 2})
+# initial-state enumeration is sequential in TLC: ~42 000 three-transfer scenarios keep the thorough run near 15 min
+THOROUGH = dict(MaxX=3, Throughputs={0, 2, 3}, Volumes={3, 6}, Limits={0, 1, 6}, Starts={0, 1}, Cancels={0, 2})
 
 
 def program(sc):
